@@ -269,6 +269,12 @@ func c10(r *ev.Result, tier string) {
 	r.Distinct += nz
 	r.Set("zoned_client_address_cases", nz)
 	r.Set("handshake_burst_clients_checked", c10HandshakeBurst(r))
+	{
+		n := c10Concurrent(r, fdir)
+		r.Add(n)
+		r.AddDistinct(n)
+		r.Set("concurrent_file_requests", n)
+	}
 	/* The last seam: from the operator channel to the terminal, through
 	the real Shell. */
 	runTermSeam(r, "c10", 0, "c10term")
@@ -635,4 +641,71 @@ func c10Replay(kind string, raw json.RawMessage) int {
 	}
 	fmt.Println("not reproduced")
 	return 0
+}
+
+// c10Concurrent: many clients at the same moment, each request with a text of
+// its own (percent signs, escapes, semicolons in the query): every request has
+// exactly one notice, which carries its own target character for character.
+func c10Concurrent(r *ev.Result, fdir string) int {
+	w, err := hworld.Start(hworld.Config{FDir: fdir, OchCap: 1 << 16})
+	if nil != err {
+		ev.Broken("%s", err)
+	}
+	defer w.Stop()
+	w.Drain()
+	const clients, per = 16, 250
+	shapes := []string{"/cc-%d-%d-a%%20b?x=%%31;y=%%25s", "/cc-%d-%d-%%25d?q=%%s&r=%%v", "/cc-%d-%d?a=1;b=2;c=%%41", "/cc-%d-%d-100%%25?%%"}
+	var (
+		mu   sync.Mutex
+		sent = map[string]bool{}
+		wg   sync.WaitGroup
+	)
+	for k := 0; k < clients; k++ {
+		wg.Add(1)
+		go func(k int) {
+			defer wg.Done()
+			c, err := w.Dial("")
+			if nil != err {
+				return
+			}
+			defer c.Close()
+			for i := 0; i < per; i++ {
+				t := fmt.Sprintf(shapes[(k+i)%len(shapes)], k, i)
+				if _, err := c.Do(hworld.Get(t, w.Addr)); nil != err {
+					return
+				}
+				mu.Lock()
+				sent[t] = true
+				mu.Unlock()
+			}
+		}(k)
+	}
+	wg.Wait()
+	got := map[string]int{}
+	var strange []string
+	for _, cl := range w.Drain() {
+		i := strings.Index(cl.Line, "File requested: ")
+		if i < 0 {
+			continue
+		}
+		t := strings.TrimSpace(cl.Line[i+len("File requested: "):])
+		got[t]++
+		if !sent[t] && len(strange) < 3 {
+			strange = append(strange, t)
+		}
+	}
+	bad, example := 0, ""
+	for t := range sent {
+		if 1 != got[t] {
+			bad++
+			if "" == example {
+				example = fmt.Sprintf("%q has %d notices", t, got[t])
+			}
+		}
+	}
+	if 0 != bad || 0 != len(strange) {
+		r.Violate(ev.Violation{Signature: "concurrent/notice-not-verbatim", Kind: "c10", Replay: c10Case{Position: "concurrent-file-requests", Text: "16 clients x 250 requests"},
+			What: fmt.Sprintf("%d file requests from %d clients at the same time, each with a target of its own: %d of them do not have exactly one notice carrying their target (%s); notices carry targets nobody sent: %q", len(sent), clients, bad, example, strange)})
+	}
+	return len(sent)
 }
